@@ -22,6 +22,7 @@ type Program struct {
 	NoInitPkgs map[string]bool // package paths whose init is never run
 	ModelFns   map[string]*ssa.Function // callee name -> replacement (Go-source models)
 	Trace      bool
+	Tier       int
 	constCache sync.Map // *ssa.Const -> value
 	mu         sync.Mutex
 }
